@@ -596,6 +596,7 @@ type engine struct {
 	c        *harness.Ctx
 	attempts int
 	sigSeen  map[string]int
+	curMax   int // length bound of the search that is running (the builder's bound, or seed length + extra)
 }
 
 func (e *engine) Count(k string, n int64) { e.c.Count(k, n) }
@@ -769,7 +770,7 @@ func (e *engine) expand(b Builder, nd *bfsNode) {
 		}
 		// at the depth bound: every Compile is retried once more (one call beyond the bound), so that "the same
 		// outcome on every attempt" is also checked for the deepest constructions
-		if c.IsCompile() && len(nd.path)+1 >= b.MaxLen(e.c.Quick()) {
+		if c.IsCompile() && len(nd.path)+1 >= e.curMax {
 			p2 := append(append([]*Call{}, nd.path...), c)
 			if _, exp2, ok2 := nx.Step(c); ok2 {
 				if f := e.transition(b, nx, p2, c, exp2, e.attemptsFor(c)); f != nil {
@@ -781,12 +782,61 @@ func (e *engine) expand(b Builder, nd *bfsNode) {
 	}
 }
 
+// seeder is implemented by builders that name curated NON-INITIAL start states: well-formed constructions that lie
+// beyond the depth bound (call names of the builder's alphabet). From each of them the search continues for a few
+// more calls, so that ill-formed constructions which need many calls (a cycle behind a node that is attached twice
+// to its predecessor ...) are reached as "one or two calls away from a well-formed one".
+type seeder interface {
+	Seeds() [][]string
+}
+
 func (e *engine) bfs(b Builder) {
-	maxLen := b.MaxLen(e.c.Quick())
 	init := &bfsNode{m: b.Init()}
 	seen := map[string]struct{}{init.m.Key(): {}}
-	level := []*bfsNode{init}
-	for depth := 0; depth < maxLen && len(level) > 0; depth++ {
+	e.bfsFrom(b, init, b.MaxLen(e.c.Quick()), seen, "")
+	sd, ok := b.(seeder)
+	if !ok || e.c.Res.Capped {
+		return
+	}
+	extra := 2
+	if !e.c.Quick() {
+		extra = 3
+	}
+	byName := map[string]*Call{}
+	for _, x := range b.Alphabet() {
+		byName[x.Name] = x
+	}
+	for si, names := range sd.Seeds() {
+		m := b.Init()
+		var path []*Call
+		for _, n := range names {
+			c, ok := byName[n]
+			if !ok {
+				e.c.Infra(fmt.Sprintf("seed %d of %s: unknown call %s", si, b.Name(), n))
+				return
+			}
+			nx, _, ok := m.Step(c)
+			if !ok {
+				e.c.Infra(fmt.Sprintf("seed %d of %s: call %s is not enabled in the model", si, b.Name(), n))
+				return
+			}
+			m = nx
+			path = append(path, c)
+		}
+		seen[m.Key()] = struct{}{}
+		e.bfsFrom(b, &bfsNode{m: m, path: path}, len(path)+extra, seen, fmt.Sprintf("seed%d:", si))
+		if e.c.Res.Capped {
+			return
+		}
+	}
+}
+
+// bfsFrom explores breadth-first from root until paths reach maxLen calls. seen is shared between the roots of one
+// builder (a state reached from the initial state is not expanded again from a seed).
+func (e *engine) bfsFrom(b Builder, root *bfsNode, maxLen int, seen map[string]struct{}, tag string) {
+	e.curMax = maxLen
+	level := []*bfsNode{root}
+	for depth := len(root.path); depth < maxLen && len(level) > 0; depth++ {
 		var next []*bfsNode
 		newStates := 0
 		for _, nd := range level {
@@ -832,7 +882,7 @@ func (e *engine) bfs(b Builder) {
 			}
 		}
 		if e.c.Worker == 0 {
-			e.c.Count(fmt.Sprintf("model_states_first_reached_at_depth_%d[%s]", depth+1, b.Name()), int64(newStates))
+			e.c.Count(fmt.Sprintf("model_states_first_reached_at_depth_%s%d[%s]", tag, depth+1, b.Name()), int64(newStates))
 		}
 		level = next
 	}
